@@ -37,6 +37,9 @@ type entry struct {
 }
 
 type gen struct {
+	vpaths   map[int]map[int]bool // URL path tag of a direct version route -> versions that declare it
+	vorder   []int
+	nAlias   int
 	r        *hx.Rand
 	script   []cx.Op
 	nextH    int
@@ -75,6 +78,29 @@ func (g *gen) hs(lo, hi int) []int {
 }
 
 func (g *gen) seg() int { g.nextSeg++; return g.nextSeg }
+
+// vseg: the segment of a route declared directly on a version router — one in two re-uses the URL path of
+// a route of ANOTHER version (cx.AliasSeg: the model keeps the tags apart, the router sees the same path
+// in two version trees)
+func (g *gen) vseg(ver int) int {
+	if g.vpaths == nil {
+		g.vpaths = map[int]map[int]bool{}
+	}
+	sg := g.seg()
+	if g.r.Chance(1, 2) {
+		for _, base := range g.vorder {
+			if !g.vpaths[base][ver] {
+				g.nAlias++
+				sg = cx.AliasSeg*g.nAlias + base
+				g.vpaths[base][ver] = true
+				return sg
+			}
+		}
+	}
+	g.vpaths[sg] = map[int]bool{ver: true}
+	g.vorder = append(g.vorder, sg)
+	return sg
+}
 
 // nseg: the segment of a nested group — one in three is the empty prefix `Group("")` (an invisible
 // tag: the model keeps it in the path, the request path does not show it)
@@ -424,8 +450,9 @@ func (g *gen) routeOp() {
 		gi := r.Intn(len(g.groups))
 		i := g.add(cx.Op{K: "R", OK: "g", A: gi, Seg: sg, Hs: hs})
 		g.addEntry(g.groups[gi].router, entry{nil, i, cat(g.groups[gi].path, sg), -1})
-	case k == 8 && len(g.vrouters) > 0:
+	case (k == 8 || (k == 9 && r.Chance(1, 2))) && len(g.vrouters) > 0:
 		v := r.Intn(len(g.vrouters))
+		sg = g.vseg(g.vrouters[v].ver)
 		i := g.add(cx.Op{K: "R", OK: "v", A: v, Seg: sg, Hs: hs})
 		g.addEntry(0, entry{nil, i, []int{sg}, g.vrouters[v].ver})
 	case len(g.vgroups) > 0:
@@ -748,6 +775,23 @@ func fixed() []struct {
 			{K: "R", OK: "r", A: 0, Seg: 5, Hs: []int{10}}},
 			Beh: beh(10, map[int][]cx.Act{3: a("N", "N"), 2: a("A", "N")})},
 			[]cx.Target{{Route: 2, Path: []int{1, 2, 3}, Ver: -1}, {Route: 6, Path: []int{1, 2, 4}, Ver: -1}, {Route: 9, Path: []int{5}, Ver: -1}}},
+		// the same URL path in two version trees (alias tag 10001 renders like 1), route compilation on
+		{caseT{Check: true, Compiled: true, Script: []cx.Op{
+			{K: "V", A: 0, Ver: 1}, {K: "V", A: 0, Ver: 2},
+			{K: "R", OK: "v", A: 0, Seg: 1, Hs: []int{1, 2}}, {K: "R", OK: "v", A: 1, Seg: cx.AliasSeg + 1, Hs: []int{3}}},
+			Beh: beh(3, nil)},
+			[]cx.Target{{Route: 2, Path: []int{1}, Ver: 1}, {Route: 3, Path: []int{cx.AliasSeg + 1}, Ver: 2}}},
+		// an app route whose before / after handlers are spelled with several WithBefore and app.RouteOptions sets
+		{caseT{Check: true, Script: []cx.Op{
+			{K: "AR", OK: "a", Seg: 1, Hs: []int{1, 2, 3}, H: 4, Hs2: []int{5, 6}}, {K: "AR", OK: "a", Seg: 2, Hs: []int{1, 2}, H: 3, Hs2: []int{5, 6}}},
+			Beh: beh(6, nil)},
+			[]cx.Target{{Route: 0, Path: []int{1}, Ver: -1}, {Route: 1, Path: []int{2}, Ver: -1}}},
+		// a sub-router whose routes come from a route group (handlers passed as plain func values) is mounted
+		{caseT{Check: true, Script: []cx.Op{
+			{K: "NR"}, {K: "G", A: 1, Seg: 1, Hs: []int{1}}, {K: "GU", A: 0, Hs: []int{2, 3}},
+			{K: "R", OK: "g", A: 0, Seg: 2, Hs: []int{4, 5}}, {K: "M", A: 0, B: 1, Seg: 3}},
+			Beh: beh(5, nil)},
+			[]cx.Target{{Mounts: []int{4}, Route: 3, Path: []int{3, 1, 2}, Ver: -1}}},
 		// Where… on a registered route (Warmup, then Use, then WhereInt): re-registration with the middleware of now
 		{caseT{Check: true, Script: []cx.Op{
 			{K: "U", A: 0, Hs: []int{1}}, {K: "R", OK: "r", A: 0, Seg: 1, Hs: []int{2}}, {K: "W", A: 0},
